@@ -13,7 +13,8 @@ EXTENDS Naturals, Sequences, FiniteSets, TLC
 
 CONSTANT ProgressRestored   \* into_outcome is total even when a step failed after taking the progress (D8 when FALSE)
 
-Undecodable == {"Garbage", "Oversize", "Partial"}
+\* "Partial": the stream ends inside a frame body; "PartialPrefix": inside a length prefix
+Undecodable == {"Garbage", "Oversize", "Partial", "PartialPrefix"}
 \* "...BadId": a decodable message whose record identifiers are shorter than namespace + author
 \* "InitItems": an opening message that already carries entries (a decline must still leave the store alone)
 Inits == {"InitOk", "InitItems", "InitUnknown", "InitBadId"}
